@@ -160,7 +160,7 @@ func (hs *Hosts) Add(domain ...string) {
 	}
 }
 
-func (hs *Hosts) Delete(domain string) { hs.tree.Remove(domain) }
+func (hs *Hosts) Delete(domain string) { hs.tree.Remove(strings.ToLower(domain)) }
 
 func (hs *Hosts) emptyHandlerFunc() {}
 
